@@ -1,0 +1,44 @@
+//go:build verif
+
+package req
+
+import (
+	"net/url"
+
+	"github.com/imroc/req/v3/internal/netutil"
+)
+
+// VerifAltSvcState (property C12 hook) reports the Alt-Svc bookkeeping the transport holds for
+// the authority of u: "off" (HTTP/3 not enabled: no jar), "none", "pending" (entry recorded,
+// no transport chosen yet), "ready" (pending entry with a transport: the next request is sent
+// through it), "jar" (confirmed entry in the AltSvcJar).
+func (t *Transport) VerifAltSvcState(u *url.URL) string {
+	if t.altSvcJar == nil {
+		return "off"
+	}
+	addr := netutil.AuthorityKey(u)
+	t.pendingAltSvcsMu.Lock()
+	pas, ok := t.pendingAltSvcs[addr]
+	t.pendingAltSvcsMu.Unlock()
+	if ok {
+		pas.Mu.Lock()
+		defer pas.Mu.Unlock()
+		if pas.Transport != nil {
+			return "ready"
+		}
+		return "pending"
+	}
+	if t.altSvcJar.GetAltSvc(addr) != nil {
+		return "jar"
+	}
+	return "none"
+}
+
+// VerifForceHTTPVersion (property C12 hook) returns the forced protocol version ("" = none, "1.1", "2", "3").
+func (t *Transport) VerifForceHTTPVersion() string { return string(t.forceHttpVersion) }
+
+// VerifHTTP3Enabled (property C12 hook) reports whether the HTTP/3 round-tripper is wired up.
+func (t *Transport) VerifHTTP3Enabled() bool { return t.t3 != nil }
+
+// VerifH2AllowHTTP (property C12 hook) reports the HTTP/2 transport's AllowHTTP flag (h2c).
+func (t *Transport) VerifH2AllowHTTP() bool { return t.t2 != nil && t.t2.AllowHTTP }
